@@ -496,4 +496,271 @@ example : hasKey (sampleRes false 1).status "b" = true ∧
 /-- the exact-product hypothesis of `filter_card_le_floor_partial` is inhabited (p = 1/2, 5 nodes: cap 2) -/
 example : 5 * 2 ^ 52 < 2 ^ 53 + 2 ^ 54 ∧ capF64 5 1 1 = 2 ∧ capExact 5 1 1 = 2 := by decide
 
+/-! ## the floor bound on every reachable state: exactly the recorded region is left out -/
+
+/-- the model's run over an event history (every op of the driver is one or two of these events) -/
+def run (r₀ : Res) (evs : List Ev) : Res := evs.foldl step r₀
+
+/-- the region of known finding `cap-float-roundup`: the binary64 product rounds up to the next integer -/
+def RoundupRegion (n m E : Nat) : Prop := capF64 n m E = capExact n m E + 1
+
+/-- how the driver (and `outlier.IsValidRule`) builds every rule: `MaxEjectionPercent = m / 2^E ∈ [0, 1]`, cap = the code's
+    `int(float64(n) * p)` -/
+def WFRule (rule : Rule) : Prop := ∃ m E, m ≤ 2 ^ E ∧ rule.cap = fun n => capF64 n m E
+
+/-- events carrying a rule carry a well-formed one -/
+def EvWF : Ev → Prop
+  | .reload rule => WFRule rule
+  | .rebuild rule _ _ => WFRule rule
+  | _ => True
+
+theorem rule_step (r : Res) (e : Ev) :
+    (step r e).rule = match e with
+      | .reload rule => rule
+      | .rebuild rule _ _ => rule
+      | _ => r.rule := by
+  cases e with
+  | check now ord => rfl
+  | completed now a rt err =>
+    show (r.completed now a rt err).rule = r.rule
+    unfold Res.completed
+    split <;> rfl
+  | retryOk now a rt => rfl
+  | recycle a => rfl
+  | reload rule => rfl
+  | rebuild rule now reuse => rfl
+  | clear => rfl
+  | retryFail a => rfl
+
+theorem wf_run (r₀ : Res) (evs : List Ev) (h0 : WFRule r₀.rule) (hev : ∀ e ∈ evs, EvWF e) :
+    WFRule (run r₀ evs).rule := by
+  unfold run
+  induction evs generalizing r₀ with
+  | nil => exact h0
+  | cons e es ih =>
+    simp only [List.foldl_cons]
+    apply ih
+    · rw [rule_step]
+      have he := hev e (List.mem_cons_self ..)
+      cases e <;> first | exact h0 | exact he
+    · exact fun e' he' => hev e' (List.mem_cons_of_mem _ he')
+
+/-- **Sharp form of the share bound.**  What kept `filter_card_le_floor_partial` partial is its hypothesis
+    `n · m < 2^53` (the product is exactly representable).  Without it: for a well-formed rule and fewer than `2^53` nodes the
+    floor bound holds **iff** the state is not inside the recorded region (`RoundupRegion`) with more rejecting nodes than the
+    exact floor — for every iteration order. -/
+theorem filter_card_le_floor_iff (r : Res) (now : Nat) (ord : Nodes) (m E : Nat) (hp : ord.Perm r.nodes)
+    (hcap : r.rule.cap = fun n => capF64 n m E) (hm : m ≤ 2 ^ E) (hn : r.nodes.length < 2 ^ 53) :
+    (r.check now ord).2.filters.length ≤ capExact r.nodes.length m E ↔
+      ¬ (RoundupRegion r.nodes.length m E ∧ capExact r.nodes.length m E < numRejecting r now) := by
+  have h1 := filter_card_eq_min r now ord hp
+  rw [hcap] at h1
+  simp only at h1
+  have h2 : r.nodes.length * m < 2 ^ (53 + E) := by
+    rw [pow_add]
+    calc r.nodes.length * m ≤ r.nodes.length * 2 ^ E := Nat.mul_le_mul_left _ hm
+      _ < 2 ^ 53 * 2 ^ E := Nat.mul_lt_mul_of_pos_right hn (by positivity)
+  have hlo := capF64_ge_floor _ _ _ h2
+  have hhi := capF64_le_floor_succ _ _ _ h2
+  unfold RoundupRegion
+  rw [h1]
+  omega
+
+/-- outside the recorded region the bound holds outright -/
+theorem filter_card_le_floor_outside_roundup (r : Res) (now : Nat) (ord : Nodes) (m E : Nat) (hp : ord.Perm r.nodes)
+    (hcap : r.rule.cap = fun n => capF64 n m E) (hm : m ≤ 2 ^ E) (hn : r.nodes.length < 2 ^ 53)
+    (hout : ¬ RoundupRegion r.nodes.length m E) :
+    (r.check now ord).2.filters.length ≤ capExact r.nodes.length m E :=
+  (filter_card_le_floor_iff r now ord m E hp hcap hm hn).2 fun h => hout h.1
+
+/-- the recorded witness lies in the region -/
+theorem roundup_region_inhabited : RoundupRegion 3 0x15555555555555 54 := by
+  unfold RoundupRegion; rw [cap_float_roundup_arith.1, cap_float_roundup_arith.2]
+
+/-! ## the known nodes along histories -/
+
+/-- **What one event can do to the set of known nodes**: nothing; add exactly the (non-empty, new) address a request
+    completed on; remove exactly the node whose recycle timer fired while it was pending and unrecovered; or forget all of
+    them when the resource loses its rule (per-resource clear, bulk load without it, invalid bulk rule). -/
+theorem known_nodes_step (r : Res) (e : Ev) :
+    keys (step r e).nodes = keys r.nodes ∨
+    (∃ now a rt err, e = .completed now a rt err ∧ a ≠ "" ∧ a ∉ keys r.nodes ∧
+        keys (step r e).nodes = keys r.nodes ++ [a]) ∨
+    (∃ a, e = .recycle a ∧ (stRecycle r.status a).2 = true ∧
+        keys (step r e).nodes = (keys r.nodes).filter fun k => !(k == a)) ∨
+    (e = .clear ∧ keys (step r e).nodes = []) := by
+  cases e with
+  | check now ord => exact Or.inl (keys_check r now ord)
+  | completed now a rt err =>
+    have h := keys_completed r now a rt err
+    by_cases hc : a = "" ∨ a ∈ keys r.nodes
+    · left; show keys (r.completed now a rt err).nodes = _; rw [h, if_pos hc]
+    · right; left
+      refine ⟨now, a, rt, err, rfl, fun h0 => hc (Or.inl h0), fun h0 => hc (Or.inr h0), ?_⟩
+      show keys (r.completed now a rt err).nodes = _
+      rw [h, if_neg hc]
+  | retryOk now a rt => exact Or.inl (keys_retryOk r now a rt)
+  | recycle a =>
+    have h := keys_recycle r a
+    by_cases hd : (stRecycle r.status a).2 = true
+    · right; right; left
+      refine ⟨a, rfl, hd, ?_⟩
+      show keys (r.recycle a).nodes = _
+      rw [h, if_pos hd]
+    · left
+      show keys (r.recycle a).nodes = _
+      rw [h, if_neg hd]
+  | reload rule => exact Or.inl rfl
+  | rebuild rule now reuse => exact Or.inl (keys_rebuild r rule now reuse)
+  | clear => exact Or.inr (Or.inr (Or.inr ⟨rfl, rfl⟩))
+  | retryFail a => exact Or.inl rfl
+
+/-- events that cannot change the known nodes, relative to the set `known`: requests, completions on a known (or the
+    empty) address, recovery-check results, reloads and rebuilds -/
+def NodeNeutral (known : List String) : Ev → Prop
+  | .completed _ a _ _ => a = "" ∨ a ∈ known
+  | .recycle _ => False
+  | .clear => False
+  | _ => True
+
+/-- **`known-node-set-changed-without-event`, as an invariant of `run`**: over any history consisting only of node-neutral
+    events the set of known nodes (even its map order) is unchanged. -/
+theorem known_nodes_unchanged (r₀ : Res) (evs : List Ev)
+    (h : ∀ e ∈ evs, NodeNeutral (keys r₀.nodes) e) : keys (run r₀ evs).nodes = keys r₀.nodes := by
+  unfold run
+  induction evs generalizing r₀ with
+  | nil => rfl
+  | cons e es ih =>
+    simp only [List.foldl_cons]
+    have he := h e (List.mem_cons_self ..)
+    have hstep : keys (step r₀ e).nodes = keys r₀.nodes := by
+      rcases known_nodes_step r₀ e with h1 | ⟨_, a, _, _, rfl, hne, hnk, _⟩ | ⟨a, rfl, _, _⟩ | ⟨rfl, _⟩
+      · exact h1
+      · exact absurd he (by simp [NodeNeutral, hne, hnk])
+      · exact absurd he (by simp [NodeNeutral])
+      · exact absurd he (by simp [NodeNeutral])
+    rw [ih (step r₀ e) (by rw [hstep]; exact fun e' he' => h e' (List.mem_cons_of_mem _ he')), hstep]
+
+/-- **Known nodes come only from traffic**: a node known after a history was known before it or is the address of a
+    completion in it. -/
+theorem known_node_origin (r₀ : Res) (evs : List Ev) (a : String) (h : a ∈ keys (run r₀ evs).nodes) :
+    a ∈ keys r₀.nodes ∨ ∃ now rt err, Ev.completed now a rt err ∈ evs := by
+  unfold run at h
+  induction evs generalizing r₀ with
+  | nil => exact Or.inl h
+  | cons e es ih =>
+    simp only [List.foldl_cons] at h
+    rcases ih (step r₀ e) h with h1 | ⟨now, rt, err, hm⟩
+    · rcases known_nodes_step r₀ e with h2 | ⟨now, a', rt, err, rfl, _, _, h2⟩ | ⟨a', rfl, _, h2⟩ | ⟨rfl, h2⟩
+      · left; rwa [h2] at h1
+      · rw [h2, List.mem_append, List.mem_singleton] at h1
+        rcases h1 with h1 | rfl
+        · exact Or.inl h1
+        · exact Or.inr ⟨now, rt, err, List.mem_cons_self ..⟩
+      · rw [h2] at h1; exact Or.inl (List.mem_filter.1 h1).1
+      · rw [h2] at h1; exact absurd h1 (List.not_mem_nil)
+    · exact Or.inr ⟨now, rt, err, List.mem_cons_of_mem _ hm⟩
+
+/-- **A callee that completed a request is a known node afterwards, under the address it was traced with** (any
+    outcome, any response time; the empty address is not a node). -/
+theorem completed_callee_known (r : Res) (now : Nat) (a : String) (rt : Nat) (err : Bool) (ha : a ≠ "") :
+    a ∈ keys (r.completed now a rt err).nodes := by
+  rw [keys_completed]
+  split
+  · rename_i h; rcases h with h | h
+    · exact absurd h ha
+    · exact h
+  · simp
+
+/-- … and stays known along any history until the resource loses its rule or the node's own recycle timer fires. -/
+theorem known_persists (r : Res) (evs : List Ev) (a : String) (h : a ∈ keys r.nodes)
+    (hno : ∀ e ∈ evs, e ≠ .clear ∧ e ≠ .recycle a) : a ∈ keys (run r evs).nodes := by
+  unfold run
+  induction evs generalizing r with
+  | nil => exact h
+  | cons e es ih =>
+    simp only [List.foldl_cons]
+    apply ih
+    · have he := hno e (List.mem_cons_self ..)
+      rcases known_nodes_step r e with h2 | ⟨_, a', _, _, rfl, _, _, h2⟩ | ⟨a', rfl, _, h2⟩ | ⟨rfl, _⟩
+      · rwa [h2]
+      · rw [h2]; exact List.mem_append_left _ h
+      · rw [h2, List.mem_filter]
+        refine ⟨h, ?_⟩
+        have : a ≠ a' := fun haa => he.2 (by rw [haa])
+        simp [this]
+      · exact absurd rfl he.1
+    · exact fun e' he' => hno e' (List.mem_cons_of_mem _ he')
+
+/-- the oracle's two claims together, for a request traced with `a` inside any history -/
+theorem completed_callee_known_in_run (r₀ : Res) (evs₁ evs₂ : List Ev) (now : Nat) (a : String) (rt : Nat) (err : Bool)
+    (ha : a ≠ "") (hno : ∀ e ∈ evs₂, e ≠ .clear ∧ e ≠ .recycle a) :
+    a ∈ keys (run r₀ (evs₁ ++ .completed now a rt err :: evs₂)).nodes := by
+  unfold run
+  rw [List.foldl_append, List.foldl_cons]
+  exact known_persists _ evs₂ a (completed_callee_known _ now a rt err ha) hno
+
+/-- node addresses stay pairwise distinct (they are map keys): the hypothesis of `filter_nodup` holds on every
+    reachable state -/
+theorem keys_nodup_run (r₀ : Res) (evs : List Ev) (h : (keys r₀.nodes).Nodup) : (keys (run r₀ evs).nodes).Nodup := by
+  unfold run
+  induction evs generalizing r₀ with
+  | nil => exact h
+  | cons e es ih =>
+    simp only [List.foldl_cons]
+    apply ih
+    rcases known_nodes_step r₀ e with h2 | ⟨_, a', _, _, rfl, _, hnk, h2⟩ | ⟨a', rfl, _, h2⟩ | ⟨rfl, h2⟩
+    · rwa [h2]
+    · rw [h2]
+      exact List.Nodup.append h (List.nodup_singleton _) (by
+        intro x hx hx'
+        rw [List.mem_singleton] at hx'
+        exact hnk (hx' ▸ hx))
+    · rw [h2]; exact h.filter _
+    · rw [h2]; exact List.nodup_nil
+
+/-- one event adds at most one node -/
+theorem nodes_length_run (r₀ : Res) (evs : List Ev) : (run r₀ evs).nodes.length ≤ r₀.nodes.length + evs.length := by
+  unfold run
+  induction evs generalizing r₀ with
+  | nil => simp
+  | cons e es ih =>
+    simp only [List.foldl_cons, List.length_cons]
+    have h1 := ih (step r₀ e)
+    have h2 : (step r₀ e).nodes.length ≤ r₀.nodes.length + 1 := by
+      have hk : ∀ ns : Nodes, ns.length = (keys ns).length := fun ns => by simp [keys]
+      rw [hk, hk r₀.nodes]
+      rcases known_nodes_step r₀ e with h2 | ⟨_, a', _, _, rfl, _, _, h2⟩ | ⟨a', rfl, _, h2⟩ | ⟨rfl, h2⟩
+      · rw [h2]; omega
+      · rw [h2]; simp
+      · rw [h2]; exact le_trans (List.length_filter_le _ _) (by omega)
+      · rw [h2]; simp
+    omega
+
+/-- **The share bound on every reachable state of the model.**  Start from any state with a well-formed rule and distinct
+    node addresses, run any history of events (requests in any iteration order, completions on arbitrary address tokens with
+    any outcome, recovery checks succeeding or failing, recycle timers, reloads on either path, rebuilds, rule drops) whose
+    rules are well-formed and which is shorter than `2^53` events: the rule in force is `m / 2^E ∈ [0,1]` for some `m, E`, the
+    filter list is duplicate-free, has at most `⌊n·p⌋ + 1` entries, and at most `⌊n·p⌋` **unless** the state lies in the recorded
+    `cap-float-roundup` region with more rejecting nodes than the floor — nothing else is left out. -/
+theorem filter_card_le_floor_reachable (r₀ : Res) (evs : List Ev) (now : Nat) (ord : Nodes)
+    (h0 : WFRule r₀.rule) (hk : (keys r₀.nodes).Nodup) (hev : ∀ e ∈ evs, EvWF e)
+    (hlen : r₀.nodes.length + evs.length < 2 ^ 53) (hp : ord.Perm (run r₀ evs).nodes) :
+    let r := run r₀ evs
+    ∃ m E, m ≤ 2 ^ E ∧ r.rule.cap = (fun n => capF64 n m E) ∧
+      (r.check now ord).2.filters.Nodup ∧
+      (r.check now ord).2.filters.length ≤ capExact r.nodes.length m E + 1 ∧
+      ((r.check now ord).2.filters.length ≤ capExact r.nodes.length m E ↔
+        ¬ (RoundupRegion r.nodes.length m E ∧ capExact r.nodes.length m E < numRejecting r now)) := by
+  intro r
+  obtain ⟨m, E, hm, hcap⟩ := wf_run r₀ evs h0 hev
+  have hn : r.nodes.length < 2 ^ 53 := lt_of_le_of_lt (nodes_length_run r₀ evs) hlen
+  exact ⟨m, E, hm, hcap, filter_nodup r now ord hp (keys_nodup_run r₀ evs hk),
+    filter_card_le_floor_succ r now ord m E hcap hm hn, filter_card_le_floor_iff r now ord m E hp hcap hm hn⟩
+
+/-- non-vacuity: the empty resource with the witness percentage is a legal start, and the witness state is reachable from it
+    by three completions (so the region really is met by histories) -/
+example : WFRule witnessRes.rule ∧ (keys ({ witnessRes with nodes := [] } : Res).nodes).Nodup :=
+  ⟨⟨0x15555555555555, 54, by decide, rfl⟩, List.nodup_nil⟩
+
 end Sentinel.C20
